@@ -47,6 +47,10 @@ def oracle_spec_api(cases, impl, model, mode=None):
     driver next to the model's own result)"""
     out = []
     for c in cases:
+        if str(c.header.get('keep', '0')) == '1':
+            # a tree initialised below the size of its buffer and used through the same handle: no property
+            # says when the spare records count as capacity; differences from the model are tie findings only
+            continue
         si, sm = steps_of(impl, c.id), steps_of(model, c.id)
         for k, b in enumerate(sm):
             if 's' not in b:
@@ -68,7 +72,7 @@ def oracle_no_panic(cases, impl, hang, mode=None):
                 out.append(Finding('oracle', c, a['i'], 'panic: op "%s" panicked' % c.ops[a['i']], mode=mode))
                 break
         if hang == c.id:
-            out.append(Finding('oracle', c, len(steps_of(impl, c.id)), 'hang: operation did not return within 5 s', mode=mode))
+            out.append(Finding('oracle', c, len(steps_of(impl, c.id)), 'hang: operation did not return within 20 s', mode=mode))
     return out
 
 REFUSED = {'N', 'F'}
@@ -218,8 +222,8 @@ def oracle_doc(cases, impl, workdir, tag, want=('wf', 'cont'), mode=None):
                 if not m or int(m.group(1)) != int(op[1]):
                     bad = 'format: insert returned slot %s but that record does not hold key %s' % (r[1:], op[1])
         if not bad and 'bal' in want and c.kind == 'avl':
-            if d.get('bal') != 'T':
-                bad = 'balance: after op "%s" some node\'s subtrees differ by more than one level or a stored height is wrong: %s' % (c.ops[a['i']], d.get('tree'))
+            if not shape_balanced(d.get('tree', '.')):
+                bad = 'balance: after op "%s" the subtrees of some node differ by more than one level: %s' % (c.ops[a['i']], d.get('tree'))
             else:
                 nn = 0 if d.get('cont', '-') == '-' else len(d['cont'].split(','))
                 if int(d.get('lv', 0)) > max_levels(nn):
@@ -279,8 +283,16 @@ def oracle_cmps(cases, impl):
                 counts = {}
                 for k in log:
                     counts[k] = counts.get(k, 0) + 1
+                # C06: only keys of ONE root-to-leaf path, each a small constant number of times (a second
+                # descent over the same path is still logarithmic): the distinct keys, in order of first
+                # appearance, must be a path from the root, and no key may be compared more than 6 times
+                first = []
+                for k in distinct:
+                    if k not in first:
+                        first.append(k)
+                distinct = first
                 path_ok = is_tree_path(prev_doc['tree'], distinct)
-                if len(distinct) > lv or max(counts.values()) > 2 or len(set(distinct)) != len(distinct) or not path_ok:
+                if len(distinct) > lv or max(counts.values()) > 6 or not path_ok:
                     out.append(Finding('oracle', c, a['i'], 'cost: op "%s" compared the key with %s (tree had %d levels; path=%s)' % (c.ops[a['i']], a['cm'], lv, path_ok)))
                     break
             if c.kind == 'arr' and 'cm' in a:
@@ -288,12 +300,37 @@ def oracle_cmps(cases, impl):
                 ln = 0 if a.get('abs', '-') == '-' else len(a['abs'].split(','))
                 if c.ops[a['i']].startswith('gmut') and a.get('r') == 'N':
                     pass
-                bound = 0 if ln == 0 else math.ceil(math.log2(ln + 1)) + 1
-                if int(a['cm']) > bound:
-                    out.append(Finding('oracle', c, a['i'], 'cost: lookup "%s" in %d elements made %s comparisons (bound %d)' % (c.ops[a['i']], ln, a['cm'], bound)))
+                # C06 bounds the ELEMENTS the sought value is compared with (ceil(log2(n+1))+1), not the number
+                # of comparison calls; cl= lists the elements compared when the harness reports them
+                bound = math.ceil(math.log2(ln + 1)) + 1
+                if 'cl' in a:
+                    elems = int(a['cl'])
+                else:
+                    elems = (int(a['cm']) + 1) // 2      # at most two calls per element (cmp, or < then >)
+                if elems > bound:
+                    out.append(Finding('oracle', c, a['i'], 'cost: lookup "%s" in %d elements compared the value with %d elements (bound %d)' % (c.ops[a['i']], ln, elems, bound)))
                     break
             prev_doc = d
     return out, n
+
+def shape_balanced(tree_s):
+    """height balance of the decoded shape alone (the stored height registers are not judged here)"""
+    try:
+        t = parse_tree(tree_s)
+    except Exception:
+        return False
+    ok = [True]
+    def lv(x):
+        if x is None:
+            return 0
+        a, b = lv(x[0]), lv(x[2])
+        if abs(a - b) > 1:
+            ok[0] = False
+        return 1 + max(a, b)
+    import sys
+    sys.setrecursionlimit(10000)
+    lv(t)
+    return ok[0]
 
 def parse_tree(s):
     """'(l,slot:k:v:h,r)' / '.' -> nested (l, key, r)"""
@@ -374,15 +411,15 @@ def oracle_pstr(cases, impl, props):
                 # with the recorded length known to fit the area (a handle was created by new(), or the
                 # buffer is still all zero) no view, reload or copy may panic
                 if 'C13' in props and plen is not None and not c.tags.get('expect_panic') \
-                        and op[0] in ('ro', 'asstr', 'size', 'copy', 'copysl', 'upper'):
+                        and op[0] in ('ro', 'rw', 'asstr', 'size', 'copy', 'copysl', 'upper'):
                     out.append(Finding('oracle', c, a['i'], 'prefix: op "%s" panicked although the recorded length %d fits the %d payload bytes'
                                        % (op[0], plen, size - p)))
                 break
             if op[0] == 'new' and content is not None and size >= p and (r == 'E' or r.startswith('O')):
                 # judged on the bytes the implementation itself reported before this call
                 shown = bytes(content[p:p + min(size - p, pmax)])
-                if r == 'E' and is_utf8(shown):
-                    bad = 'new() refused a buffer whose first %d payload bytes (all it can describe) are valid UTF-8: what lies behind them is trailing data' % len(shown)
+                if r == 'E' and is_utf8(shown) and size - p <= pmax:
+                    bad = 'new() refused a buffer whose %d payload bytes are valid UTF-8' % len(shown)
                 elif r.startswith('O') and not is_utf8(shown) and 'C11' in props:
                     bad = 'utf8: new() accepted a buffer whose first %d payload bytes are not valid UTF-8' % len(shown)
             if bad:
@@ -422,6 +459,16 @@ def oracle_pstr(cases, impl, props):
             elif op[0] == 'size' and r.startswith('#') and plen is not None and 'C13' in props:
                 if int(r[1:]) != p + plen:
                     bad = 'prefix: size() = %s, expected %d' % (r[1:], p + plen)
+            elif op[0] == 'rw' and r.startswith('O') and 'C13' in props:
+                body, _, sz = r[1:].partition(':')
+                got = unhex(body.split('!')[0])
+                if cur is not None and got != cur:
+                    bad = 'prefix: mutable reload gives %s, the previous view held %s' % (got.hex(), cur.hex())
+                elif plen is not None and int(sz) != p + plen:
+                    bad = 'prefix: size() after a mutable reload = %s, expected %d' % (sz, p + plen)
+                plen = len(got); cur = got
+            elif op[0] == 'rw':
+                plen = None; cur = None
             elif op[0] == 'ro' and r.startswith('O') and 'C13' in props:
                 body, _, sz = r[1:].partition(':')
                 got = unhex(body.split('!')[0])
@@ -431,14 +478,14 @@ def oracle_pstr(cases, impl, props):
                     bad = 'prefix: read-only size() = %s, expected %d' % (sz, p + plen)
             elif op[0] == 'ro' and r == 'E' and cur is not None and is_utf8(cur) and 'C13' in props:
                 bad = 'prefix: read-only reload refuses bytes the mutable view held as a string'
-            if op[0] == 'ro' and 'b' in a and not bad:
+            if op[0] in ('ro', 'rw') and 'b' in a and not bad:
                 buf = unhex(a['b'])
                 ln = int.from_bytes(buf[:p], 'little')
                 if ln <= len(buf) - p:
                     pay = buf[p:p + ln]
                     valid = is_utf8(pay)
-                    if r == 'E' and valid:
-                        bad = ('prefix: ' if 'C13' in props else 'utf8: ') + 'from_bytes refused a valid UTF-8 payload of %d bytes (bytes beyond the recorded length must be ignored)' % ln
+                    if r == 'E' and valid and 'C13' in props:
+                        bad = 'prefix: ' + 'from_bytes refused a valid UTF-8 payload of %d bytes (bytes beyond the recorded length must be ignored)' % ln
                     if r.startswith('O') and not valid and 'C11' in props:
                         bad = 'utf8: from_bytes accepted a payload that is not UTF-8: %s' % pay.hex()
                     if r.startswith('O') and valid and 'C13' in props and r != 'O%s:%d' % (pay.hex() or '-', p + ln):
@@ -482,8 +529,8 @@ def oracle_podstr(cases, impl, props):
                 if is_utf8(text):
                     if r != 'D' + (text.hex() or '-'):
                         bad = 'podstr: Display renders %s, the text is %s' % (r[1:], text.hex() or '-')
-                elif r != 'D~':
-                    bad = 'podstr: Display of invalid text renders %s' % r
+                # text that is not UTF-8: C14 does not say what Display renders (the harness compares with
+                # from_utf8_lossy and prints D~ or D!): not judged
             if op[0] == 'load' and r != 'T' and 'C14' in props:
                 bad = 'podstr: load(bytes_of(x)) != x'
             if op[0] == 'loadshort' and r != 'P':
